@@ -235,3 +235,26 @@ example : (listAll .fixed (ofRaw (healthyRaw exLib 2 (fun _ _ _ => rawOf {} (.ob
     .ok (clientListing [] exLib) := by decide +kernel
 
 end S2T.C18.Items
+
+/-! ### fnmatch character classes (the concrete `globMatch` of the driver; every theorem above holds for ANY `glob`) -/
+namespace S2T.C18.Items
+open S2T.SP
+
+/-- a one-member class is that character: `[c]` then `p` accepts `x :: s` iff `x = c` and `p` accepts `s` -/
+theorem C18_glob_class_step (neg : Bool) (m : Str) (toks : List GTok) (x : Char) (s : Str) :
+    globTok (.cls neg m :: toks) (x :: s) = ((classHas x m != neg) && globTok toks s) := rfl
+
+/-- a class never accepts the empty rest: it stands for exactly one character (it is not literal text) -/
+theorem C18_glob_class_needs_char (neg : Bool) (m : Str) (toks : List GTok) : globTok (.cls neg m :: toks) [] = false := rfl
+
+/-- the seeded-change shapes: a class BEFORE the first `*` in the folder part selects the folder -/
+theorem C18_glob_class_examples :
+    globMatch "Reports/2024/jan.pdf".toList "[Rr]eports/*.pdf".toList = true ∧
+    globMatch "reports/old.pdf".toList "[Rr]eports/*.pdf".toList = true ∧
+    globMatch "Year 2024/sub/b.pdf".toList "Year 202[34]/*".toList = true ∧
+    globMatch "Year 2022/a.pdf".toList "Year 202[34]/*".toList = false ∧
+    globMatch "Reports/2024/jan.pdf".toList "Reports/202[0-9]/*".toList = true ∧
+    globMatch "Reports/2024/jan.pdf".toList "Reports/202[!0-9]/*".toList = false ∧
+    globMatch "a[b".toList "a[b".toList = true := by decide
+
+end S2T.C18.Items
